@@ -77,7 +77,9 @@ pub struct Scenario {
     pub header_stage: bool,
     /// which header check the header stage runs: 0 = the miner RPC `submit_block` (HeaderVerifier on
     /// the current snapshot), 1 = the peers' headers-first path (a `SendHeaders` message from a
-    /// simulated peer handled by the real `Synchronizer` over a real `SyncShared`)
+    /// simulated peer handled by the real `Synchronizer` over a real `SyncShared`), 2 = the
+    /// compact-block relay path (a `CompactBlock` message handled by the real `Relayer` over the
+    /// same `SyncShared`; what the relay does not take goes the headers-first way)
     #[serde(default, skip_serializing_if = "is_zero_u8")]
     pub header_path: u8,
     /// how the simulated peer announces (header_path 1): 0 = one header per message, a header whose
@@ -507,6 +509,9 @@ pub fn generate(seed: u64, prop: &str) -> Scenario {
                 // the whole run happens in "initial block download"
                 if rp.chance(1, 6) {
                     peer_ibd_ms = 25 * 3_600_000 + rp.range(0, 3_600_000);
+                } else if rp.chance(1, 3) {
+                    // the compact-block relay path (a node in initial block download ignores it)
+                    header_path = 2;
                 }
             }
         }
